@@ -24,7 +24,9 @@ class TrashDirReader:
     def list_trashinfo(self, path):
         info_dir = os.path.join(path, 'info')
         for entry in self.dir_reader.entries_if_dir_exists(info_dir):
-            # a file named exactly '.trashinfo' has an empty name: its backup
-            # copy would be the whole 'files' directory
-            if entry.endswith('.trashinfo') and entry != '.trashinfo':
+            # '.trashinfo', '..trashinfo' and '...trashinfo' name no entry: their
+            # backup copy would be 'files' itself, 'files/.' or 'files/..'
+            # (the whole trash directory)
+            if (entry.endswith('.trashinfo')
+                    and entry[:-len('.trashinfo')] not in ('', '.', '..')):
                 yield os.path.join(info_dir, entry)
